@@ -467,8 +467,12 @@ class TypeReader:
     def peek(self):
         return self.cs[self.i] if self.i < len(self.cs) else None
 
+    def at(self, ch):
+        p = self.peek()
+        return isinstance(p, int) and p == ord(ch)
+
     def skip_ws(self):
-        while self.i < len(self.cs) and self.cs[self.i] == 32:
+        while self.i < len(self.cs) and isinstance(self.cs[self.i], int) and self.cs[self.i] == 32:
             self.i += 1
 
     def is_ident_char(self, c, first):
@@ -502,9 +506,9 @@ class TypeReader:
         if c == ord("&"):
             self.i += 1
             self.skip_ws()
-            if self.peek() == ord("'"):
+            if self.at("'"):
                 self.i += 1
-                while self.peek() is not None and self.is_ident_char(self.peek(), False) and self.peek() != 32:
+                while self.peek() is not None and not self.at(" ") and self.is_ident_char(self.peek(), False):
                     self.i += 1
             inner = self.ty()
             return self.variant("Type", "Reference", [self.mk("TypeReference", {"lifetime": NONE(), "mutability": NONE(), "elem": BoxV(inner)})])
@@ -512,16 +516,36 @@ class TypeReader:
             self.i += 1
             self.skip_ws()
             elems = []
-            while self.peek() != ord(")"):
+            while (not self.at(")")):
                 elems.append(self.ty())
                 self.skip_ws()
-                if self.peek() == ord(","):
+                if self.at(","):
                     self.i += 1
                     self.skip_ws()
             self.i += 1
             return self.variant("Type", "Tuple", [self.mk("TypeTuple", {"elems": RVec(elems)})])
         if c == ord("["):
-            raise Unsupported("array/slice type text with symbolic chars")
+            self.i += 1
+            elem = self.ty()
+            self.skip_ws()
+            if self.at(";"):
+                self.i += 1
+                self.skip_ws()
+                digits = []
+                while isinstance(self.peek(), int) and chr(self.peek()).isdigit():
+                    digits.append(chr(self.peek()))
+                    self.i += 1
+                self.skip_ws()
+                if (not self.at("]")) or not digits:
+                    raise Unsupported("type text: array length")
+                self.i += 1
+                lit = self.variant("Lit", "Int", [SynLitInt("".join(digits))])
+                ln = self.variant("Expr", "Lit", [self.mk("ExprLit", {"attrs": RVec([]), "lit": lit})])
+                return self.variant("Type", "Array", [self.mk("TypeArray", {"elem": BoxV(elem), "len": ln})])
+            if (not self.at("]")):
+                raise Unsupported("type text: slice")
+            self.i += 1
+            return self.variant("Type", "Slice", [self.mk("TypeSlice", {"elem": BoxV(elem)})])
         segs = []
         while True:
             name = []
@@ -534,21 +558,21 @@ class TypeReader:
                 raise Unsupported("type text: expected identifier")
             self.skip_ws()
             args = self.variant("PathArguments", "None", [])
-            if self.peek() == ord("<"):
+            if self.at("<"):
                 self.i += 1
                 al = []
                 self.skip_ws()
-                while self.peek() != ord(">"):
+                while (not self.at(">")):
                     al.append(self.variant("GenericArgument", "Type", [self.ty()]))
                     self.skip_ws()
-                    if self.peek() == ord(","):
+                    if self.at(","):
                         self.i += 1
                         self.skip_ws()
                 self.i += 1
                 args = self.variant("PathArguments", "AngleBracketed", [self.mk("AngleBracketedGenericArguments", {"colon2_token": NONE(), "args": RVec(al)})])
             segs.append(self.mk("PathSegment", {"ident": SynIdent(RString(name)), "arguments": args}))
             self.skip_ws()
-            if self.peek() == ord(":") and self.i + 1 < len(self.cs) and self.cs[self.i + 1] == ord(":"):
+            if self.at(":") and self.i + 1 < len(self.cs) and isinstance(self.cs[self.i + 1], int) and self.cs[self.i + 1] == ord(":"):
                 self.i += 2
                 continue
             break
